@@ -39,8 +39,9 @@ def DfsOk (T : Array DirEntry) (strict : Bool) : Tree → Prop
   | .node l e k r => DfsOk T strict l ∧ DfsOk T strict k ∧ DfsOk T strict r ∧
       e.slot ≠ 0 ∧ e.slot ≠ NOSTREAM ∧
       (∃ d, T[e.slot]? = some d ∧ d.name = e.name ∧
-        (d.objType = Gen.OBJ_TYPE_STORAGE ∨ d.objType = Gen.OBJ_TYPE_STREAM) ∧
+        d.objType = (if e.isStream then Gen.OBJ_TYPE_STREAM else Gen.OBJ_TYPE_STORAGE) ∧
         d.red = !e.black ∧ d.left = lnk l ∧ d.right = lnk r ∧ d.child = lnk k) ∧
+      (e.isStream = true → k = .leaf) ∧
       (∀ x, rootName? l = some x → cmp x e.name = .lt) ∧ (∀ x, rootName? r = some x → cmp e.name x = .lt) ∧
       (strict = true → e.black = false → l.isRed = false ∧ r.isRed = false)
 
@@ -72,7 +73,7 @@ theorem pushLink_tree (T : Array DirEntry) (strict : Bool) (t : Tree) (ok : DfsO
   cases t with
   | leaf => simp [pushLink, lnk, pushT]
   | node tl te tk tr =>
-    obtain ⟨_, _, _, _, hne, ⟨d, hd, _⟩, _⟩ := ok
+    obtain ⟨_, _, _, _, hne, ⟨d, hd, _⟩, _, _⟩ := ok
     have hlt : te.slot < T.size := by
       rcases Nat.lt_or_ge te.slot T.size with h | h
       · exact h
@@ -117,7 +118,7 @@ theorem dfs_tree (m : Mode) (T : Array DirEntry) (t : Tree) :
   | leaf => intro f stack visited fuel _ _ _ _; rfl
   | node l e k r ihl ihk ihr =>
     intro f stack visited fuel ok hf nd hnv
-    obtain ⟨okl, okk, okr, h0, hne, ⟨d, hd, hname, htyp, hredd, hleft, hright, hchild⟩, hlo, hro, hrb⟩ := ok
+    obtain ⟨okl, okk, okr, h0, hne, ⟨d, hd, hname, htyp, hredd, hleft, hright, hchild⟩, _, hlo, hro, hrb⟩ := ok
     simp only [Tree.slots] at nd hnv
     have hsz : fuel + (Tree.node l e k r).size = (((fuel + l.size) + r.size) + k.size) + 1 := by
       simp only [Tree.size]; omega
@@ -153,14 +154,14 @@ theorem dfs_tree (m : Mode) (T : Array DirEntry) (t : Tree) :
     -- the three links
     have p1 := pushLink_tree T m.isStrict l okl (fun x => cmpNames Gen.upper x.name d.name == .lt) d.red stack (by
       intro tl te tk tr dl' e1 hdl
-      obtain ⟨_, _, _, _, _, ⟨d2, hd2, hn2, _⟩, _⟩ := (e1 ▸ okl : DfsOk T m.isStrict (.node tl te tk tr))
+      obtain ⟨_, _, _, _, _, ⟨d2, hd2, hn2, _⟩, _, _⟩ := (e1 ▸ okl : DfsOk T m.isStrict (.node tl te tk tr))
       rw [hdl] at hd2; cases hd2
       have := hlo te.name (by rw [e1]; rfl)
       simp only [beq_iff_eq]
       rw [hn2, hname]; exact this)
     have p2 := pushLink_tree T m.isStrict r okr (fun x => cmpNames Gen.upper d.name x.name == .lt) d.red (pushT l d.red stack) (by
       intro tl te tk tr dl' e1 hdl
-      obtain ⟨_, _, _, _, _, ⟨d2, hd2, hn2, _⟩, _⟩ := (e1 ▸ okr : DfsOk T m.isStrict (.node tl te tk tr))
+      obtain ⟨_, _, _, _, _, ⟨d2, hd2, hn2, _⟩, _, _⟩ := (e1 ▸ okr : DfsOk T m.isStrict (.node tl te tk tr))
       rw [hdl] at hd2; cases hd2
       have := hro te.name (by rw [e1]; rfl)
       simp only [beq_iff_eq]
@@ -173,7 +174,7 @@ theorem dfs_tree (m : Mode) (T : Array DirEntry) (t : Tree) :
         simpa using this)
       hd
       (by intro ⟨h, _⟩; exact h0 h)
-      (by intro ⟨_, h1, h2⟩; rcases htyp with h | h <;> contradiction)
+      (by intro ⟨_, h1, h2⟩; rw [htyp] at h1 h2; cases hst : e.isStream <;> simp [hst] at h1 h2)
       (by
         intro ⟨hf1, hr1, hs1⟩
         have := hf hs1 hf1
@@ -214,7 +215,7 @@ theorem dfsOk_slots (T : Array DirEntry) (strict : Bool) (t : Tree) (ok : DfsOk 
   induction t with
   | leaf => intro s hs; simp [Tree.slots] at hs
   | node l e k r ihl ihk ihr =>
-    obtain ⟨okl, okk, okr, h0, _, ⟨d, hd, _⟩, _⟩ := ok
+    obtain ⟨okl, okk, okr, h0, _, ⟨d, hd, _⟩, _, _⟩ := ok
     intro s hs
     simp only [Tree.slots, List.mem_append, List.mem_singleton] at hs
     rcases hs with ((hs | hs) | hs) | hs
